@@ -16,6 +16,17 @@ CONFS = ["a", "E", "A11", "n", "v21", "r12", "Q13"]
 HOOKS = ["n", "v3%d", "r4%d", "N", "Q5%d"]
 ALTS = ["-", "77", "0"]
 CUSTOMS = ["-", "n", "v55", "r56", "Q57", "In", "Iv58"]
+# __conform__ shapes beyond a bound method: raising TypeError from its body (T), a plain function stored on the
+# instance (i...), the object being a class whose unbound __conform__ cannot be called with the interface alone (U)
+CONFS2 = ["T14", "in", "iv22", "ir15", "iT16", "iQ17", "U"]
+
+
+def normcf(cf):
+    if cf == "U":
+        return "a"
+    if cf[0] == "i":
+        cf = cf[1:]
+    return "r" + cf[1:] if cf[0] == "T" else cf
 
 
 def gen_lines(rnd, tier):
@@ -31,6 +42,12 @@ def gen_lines(rnd, tier):
                 for alt in ALTS:
                     for cu in CUSTOMS:
                         L.append("call %s %s %s %s %s" % (cf, prov, hs, alt, cu))
+    for cf in CONFS2:
+        for prov in "01":
+            for hs in ["-", "n", "v30", "r40", "n,v31"]:
+                for alt in ALTS:
+                    for cu in CUSTOMS:
+                        L.append("call %s %s %s %s %s" % (cf, prov, hs, alt, cu))
     # registry hook installed: the result must equal registry.queryAdapter
     for cf in ["a", "E", "n"]:
         for t in ["R0", "Rn", "Rv61"]:
@@ -41,7 +58,7 @@ def gen_lines(rnd, tier):
         for _ in range(20000):
             n = rnd.randint(4, 6)
             hs = ",".join((HOOKS[c] % k if "%" in HOOKS[c] else HOOKS[c]) for k, c in enumerate(rnd.choices(range(len(HOOKS)), weights=[4, 1, 1, 2, 1], k=n)))
-            L.append("call %s %s %s %s %s" % (rnd.choice(CONFS), rnd.choice("01"), hs, rnd.choice(ALTS), rnd.choice(CUSTOMS)))
+            L.append("call %s %s %s %s %s" % (rnd.choice(CONFS + CONFS2), rnd.choice("01"), hs, rnd.choice(ALTS), rnd.choice(CUSTOMS)))
     return L
 
 
@@ -56,7 +73,8 @@ def to_model(line):
             return "v" + t[2:]
         return "r" + t[1:] if t[0] == "Q" else t
     hs = ",".join(tok(t) for t in f[3].split(","))
-    cf = "a" if f[1] == "E" else ("r" + f[1][1:] if f[1][0] == "Q" else f[1])
+    cf = normcf(f[1])
+    cf = "a" if cf == "E" else ("r" + cf[1:] if cf[0] == "Q" else cf)
     cu = f[5][1:] if f[5][0] == "I" else f[5]
     return "call %s %s %s %s %s" % (cf, f[2], hs, f[4], "r" + cu[1:] if cu[0] == "Q" else cu)
 
@@ -65,6 +83,7 @@ def spec(line):
     """the statement, evaluated directly: (result, log)"""
     f = line.split()
     cf, prov, hs, alt, cu = f[1:6]
+    cf = normcf(cf)
     log = []
     if cf.startswith("A"):
         return "exc " + cf[1:], log
